@@ -5,7 +5,18 @@ import sys
 
 from .build import VERIF
 
+E1_NOTE = ("trusts GNU objdump as the meaning of bytes and mc/isa.py (written from the SDM, no opcodes) as the meaning "
+           "of text; every expectation is first confirmed against nasm+objdump without the library (unconfirmed cases "
+           "are counted, not judged); register/form spaces are enumerated completely, values by boundary classes")
+
 BUILT = {
+    "C01": ("model_checking",
+            "bounded-exhaustive input-shape enumeration on the real assembler (every register tuple of every "
+            "register-only form, every option configuration), each output decoded by objdump and compared with a "
+            "reference ISA model",
+            "the complete register-tuple space of every register-only general-purpose form is executed on fresh "
+            "instances under 3 (quick) / 12 (thorough) option configurations; decode must equal what was written",
+            E1_NOTE, "DESIGN.md section 6, C01"),
     # id: (category, technique, level text, level note, design ref)
     "C12": ("model_checking",
             "explicit-state BFS over the real setter API to a fixpoint, lockstep with a documentation model; plus all "
